@@ -6,6 +6,9 @@ use std::io::Cursor;
 use bytes::{Buf, Bytes};
 use thiserror::Error;
 
+/// Maximum nesting of arrays that is accepted, parsing recurses once per level
+const MAX_DEPTH: usize = 32;
+
 /// Error from parsing a frame
 #[derive(Error, Debug, PartialEq, Eq)]
 pub enum Error {
@@ -59,6 +62,10 @@ impl Frame {
     ///
     /// [`FrameError::Incomplete`]: crate::resp::frame::Error::Incomplete
     pub fn parse(reader: &mut Cursor<&[u8]>) -> Result<Self, Error> {
+        Self::parse_nested(reader, 0)
+    }
+
+    fn parse_nested(reader: &mut Cursor<&[u8]>, depth: usize) -> Result<Self, Error> {
         match get_byte(reader)? {
             b'+' => {
                 let l = get_line(reader)?;
@@ -97,13 +104,16 @@ impl Frame {
                 Ok(Frame::BulkString(b))
             }
             b'*' => {
+                if depth >= MAX_DEPTH {
+                    return Err(Error::BadEncoding);
+                }
                 // Parse the array length and try convert it to u64
                 let len = get_integer(reader)?;
                 let len = len.try_into().map_err(|_| Error::BadEncoding)?;
                 // Recursively parse each element of the array
                 let mut items = Vec::with_capacity(len);
                 for _ in 0..len {
-                    items.push(Frame::parse(reader)?);
+                    items.push(Frame::parse_nested(reader, depth + 1)?);
                 }
                 Ok(Frame::Array(items))
             }
@@ -113,6 +123,10 @@ impl Frame {
 
     /// Checks if a message frame can be parsed from the reader without memory allocations.
     pub fn check(buf: &mut Cursor<&[u8]>) -> Result<(), Error> {
+        Self::check_nested(buf, 0)
+    }
+
+    fn check_nested(buf: &mut Cursor<&[u8]>, depth: usize) -> Result<(), Error> {
         match get_byte(buf)? {
             b'+' => {
                 get_line(buf)?;
@@ -135,9 +149,12 @@ impl Frame {
                 }
             }
             b'*' => {
+                if depth >= MAX_DEPTH {
+                    return Err(Error::BadEncoding);
+                }
                 let n = get_integer(buf)?;
                 for _ in 0..n {
-                    Frame::check(buf)?;
+                    Frame::check_nested(buf, depth + 1)?;
                 }
             }
             _ => return Err(Error::BadEncoding),
